@@ -41,6 +41,19 @@ func (e *requestBodyTooLargeError) Error() string {
 	return fmt.Sprintf("Request body exceeds max_request_bytes=%d", e.Limit)
 }
 
+// decompressedBodyTooLargeError reports a body whose decoded size exceeds the
+// decompression cap. It is a different refusal from requestBodyTooLargeError:
+// that one means the advertised max_request_bytes was exceeded (413, and the
+// client should switch to the upload-URL flow); this one is an ordinary bad
+// request unless the cap in force happens to be the advertised request cap.
+type decompressedBodyTooLargeError struct {
+	Limit int64
+}
+
+func (e *decompressedBodyTooLargeError) Error() string {
+	return fmt.Sprintf("Decompressed request body exceeds maximum size of %d bytes", e.Limit)
+}
+
 func buildHTTPTransportMeta(ipcMeta map[string]string, r *http.Request) map[string]string {
 	meta := make(map[string]string, len(ipcMeta)+4)
 	for k, v := range ipcMeta {
@@ -175,7 +188,13 @@ func (h *HttpServer) readHTTPBody(r *http.Request) ([]byte, error) {
 		} else if decompressedCap <= 0 && limit > 0 {
 			decompressedCap = limit * 16
 		}
-		return decompressBounded(encoding, body, decompressedCap)
+		decoded, derr := decompressBounded(encoding, body, decompressedCap)
+		var overCap *decompressedBodyTooLargeError
+		if errors.As(derr, &overCap) && requestCapApplied && decompressedCap == limit {
+			// The cap that tripped is the advertised request cap.
+			return nil, &requestBodyTooLargeError{Limit: limit}
+		}
+		return decoded, derr
 	default:
 		return nil, &unsupportedEncodingError{Encoding: encoding}
 	}
